@@ -74,7 +74,7 @@ if _old and not hist and 'detected' in _old:
   hist.append(dict(detected=_old['detected'], summary=_old.get('check_summary')))
 hist.append(dict(detected=meta['detected'], summary=meta['check_summary']))
 meta['history'] = hist
-for key in ('baseline_with_change',):
+for key in ('baseline_with_change', 'baseline_with_change_confirmed'):
   if key not in meta and key in _old:
     meta[key] = _old[key]
 json.dump(meta, open(os.path.join(out, 'meta.json'), 'w'), indent=1)
